@@ -97,6 +97,13 @@ func (svr *Server) handshakeDataChannel(wsc websocket.Conn) {
 	si, ok := svr.sessions.Load(channelID)
 	if ok {
 		session = si.(*Session)
+		if !session.acceptsDataChannel(wsc) {
+			// the channel id alone is no credential: the media of a session only
+			// goes to a connection of the same user on the same path
+			session = nil
+			code = 403
+			text = "FORBIDDEN"
+		}
 	} else {
 		code = 404
 		text = "NOT FOUND"
